@@ -2,6 +2,7 @@ package main
 
 import (
 	"bytes"
+	"encoding/binary"
 	"fmt"
 	"io"
 	"net/http"
@@ -34,7 +35,7 @@ var c20Elems = []string{carCT, "*/*", "text/html", "application/json", carCT + "
 	" " + carCT + " ", "\t*/*", carCT + "+json", "*/*x", "APPLICATION/VND.IPLD.CAR", "*", "", ";" + carCT, carCT + " ;q=1", "text/*",
 	carCT + ";q", "*/*;q", carCT + ";", carCT + ";q=0", "*/*;q=0", carCT + ";=", carCT + ";q=;v", "text/html;q", ";", ";q"}
 var c20CTs = []string{"-", carCT, "application/json", carCT + "; version=1", carCT + "x", "application/car", " " + carCT}
-var c20Bodies = []string{"valid", "valid0", "empty", "garbage", "nonmsg", "noroot", "missinginv"}
+var c20Bodies = []string{"valid", "valid0", "empty", "garbage", "nonmsg", "noroot", "missinginv", "validtrunc", "validbadhash", "validbadcid"}
 
 func genC20(cfg Config, emit Emit) error {
 	var accepts []string
@@ -77,6 +78,9 @@ func genC20(cfg Config, emit Emit) error {
 				emit("handle", []string{hexTok([]byte(strings.TrimPrefix(ct, "-"))), hexTok([]byte(strings.TrimPrefix(acc, "-"))), b}, class+"/"+b, acc != "-" && ct == carCT)
 			}
 		}
+	}
+	for _, acc := range []string{"-", carCT, "*/*", "text/html"} {
+		emit("handle", []string{hexTok([]byte(carCT)), hexTok([]byte(strings.TrimPrefix(acc, "-"))), "big"}, "ct-car/big", true)
 	}
 	for st := 200; st <= 599; st++ {
 		for _, b := range []string{"text", "car"} {
@@ -134,6 +138,24 @@ func c20Setup() *c20Fixture {
 		f.bodies["nonmsg"] = enc([]ipld.Link{inv.Link()}, inv.Blocks())
 		f.bodies["noroot"] = enc(nil, inv.Blocks())
 		f.bodies["missinginv"] = enc([]ipld.Link{msg.Root().Link()}, func(yield func(ipld.Block, error) bool) { yield(msg.Root(), nil) })
+		// a well-formed message followed by a damaged section: the request is not decodable as a whole
+		valid := f.bodies["valid"]
+		junk := rawCborBlock([]byte{0x18, 0x2a})
+		sec := enc(nil, func(yield func(ipld.Block, error) bool) { yield(junk, nil) })
+		// sec = header + one section; strip its header to get the bare section
+		_, hl := binary.Uvarint(sec)
+		hlen, _ := binary.Uvarint(sec)
+		section := sec[hl+int(hlen):]
+		f.bodies["validtrunc"] = append(append([]byte{}, valid...), section[:len(section)-1]...)
+		bad := append([]byte{}, section...)
+		bad[len(bad)-1] ^= 0x01
+		f.bodies["validbadhash"] = append(append([]byte{}, valid...), bad...)
+		f.bodies["validbadcid"] = append(append([]byte{}, valid...), 0x05, 0xff, 0xff, 0xff, 0xff, 0xff)
+		// a well-formed request that is simply large: a 9 MiB block attached to the invocation
+		big, _ := invocation.Invoke(alice, svc, ucan.NewCapability("test/run", alice.DID().String(), NbMap{F: map[string]any{}}), delegation.WithNoExpiration(), delegation.WithNonce("big"))
+		big.Attach(rawCborBlock(append([]byte{0x5a, 0x00, 0x90, 0x00, 0x00}, make([]byte, 9437184)...)))
+		bmsg, _ := message.Build([]invocation.Invocation{big}, nil)
+		f.bodies["big"] = enc([]ipld.Link{bmsg.Root().Link()}, bmsg.Blocks())
 		c20Fix = f
 	})
 	return c20Fix
